@@ -23,7 +23,7 @@ namespace avel {
         //=================================================
 
         explicit Denominator(std::int64_t d):
-            Denominator(d, avel::max(bit_width(abs(d) - 1l), std::int64_t(1))) {}
+            Denominator(d, avel::max(bit_width(std::int64_t(std::uint64_t(abs(d)) - 1)), std::int64_t(1))) {}
 
     private:
 
@@ -157,7 +157,7 @@ namespace avel {
 
         [[nodiscard]]
         static AVEL_FINL std::int64_t compute_mp(std::int64_t l, std::int64_t d) {
-            std::int64_t n = std::int64_t(d != 1) << (l - 1);
+            std::int64_t n = std::int64_t(avel::abs(d) != 1) << (l - 1);
             std::int64_t quotient = div_64uhi_by_64u(n, avel::abs(d));
             std::int64_t ret = quotient + 1;
 
